@@ -1095,3 +1095,33 @@ pub fn float_family() -> Vec<V> {
     }
     out
 }
+
+/// Every code point that is an identifier character of the format (both models) and occurs in none of its keywords,
+/// over the range the string sweeps use (quick: the BMP, the emoji and tag blocks, every 64th code point above;
+/// thorough: every scalar value). A name "a<c>b" built from it is a well-formed name of the format.
+pub fn name_code_points(f: &F, tier: Tier) -> Vec<char> {
+    let kw: std::collections::HashSet<char> = crate::strings::keywords(f).iter().flat_map(|k| k.chars().collect::<Vec<_>>()).collect();
+    let all: Box<dyn Iterator<Item = u32>> = match tier {
+        Tier::Quick => Box::new((0u32..=0x10ffff).filter(|c| *c <= 0xffff || (0x1f000..=0x1faff).contains(c) || (0xe0000..=0xe01ff).contains(c) || c % 64 == 0)),
+        Tier::Thorough => Box::new(0u32..=0x10ffff),
+    };
+    all.filter_map(char::from_u32)
+        .filter(|c| (f.e.is_valid_atom_name)(*c) && (f.l.atom.is_identifier)(*c) && !kw.contains(c) && !c.is_whitespace() && *c != '-')
+        .collect()
+}
+
+/// the name built from one code point
+pub fn cp_name(c: char) -> String {
+    format!("a{c}b")
+}
+
+/// one word per code point of `name_code_points`, bare and as the subject of a statement
+pub fn cp_name_terms(f: &F, tier: Tier) -> Vec<R> {
+    let mut out = vec![];
+    for c in name_code_points(f, tier) {
+        let w = R::word(&cp_name(c));
+        out.push(R::pair(Tag::Inh, w.clone(), R::atom(Tag::IVar, "b1")));
+        out.push(w);
+    }
+    out
+}
